@@ -54,8 +54,15 @@ def judge(case, ctx):
 
 def draw(rng, nmax):
     n = rng.randint(1, nmax) if rng.random() < 0.6 else rng.randint(max(1, nmax - 4), nmax)
-    cls = rng.choice(["random", "random", "zeros", "repeats", "ones", "ties", "skewed"])
-    if cls == "random":
+    cls = rng.choice(["random", "random", "zeros", "repeats", "ones", "ties", "skewed", "big", "bigties", "bignear"])
+    if cls == "big":
+        vals = [rng.randint(0, rng.choice([10 ** 9, 10 ** 12, 2 ** 48])) for _ in range(n)]
+    elif cls == "bignear":
+        vals = gen.part_values(rng, "bignear", n, 2)
+    elif cls == "bigties":
+        base = rng.choice([10 ** 9, 10 ** 12, 2 ** 40])
+        vals = [base * rng.randint(1, 3) + rng.choice([0, 0, 1, -1]) for _ in range(n)]
+    elif cls == "random":
         vals = [rng.randint(0, rng.choice([3, 20, 500])) for _ in range(n)]
     elif cls == "zeros":
         vals = [rng.choice([0, 0, rng.randint(1, 20)]) for _ in range(n)]
